@@ -135,6 +135,16 @@ func c14Check(c c14Case) vfResult {
 					flags["extension-under-extension"] = true
 				}
 			}
+		case "extend-result":
+			// Extend on a value returned earlier: it is a clone, the registered formats must not change
+			if len(held) > 0 {
+				h := held[len(held)-1].m
+				h.Extend(func([]byte, uint32) bool { return true }, "application/x-verif-onresult", ".onr")
+				if p := h.Parent(); p != nil {
+					p.Extend(func([]byte, uint32) bool { return true }, "application/x-verif-onresult-parent", ".onp")
+				}
+				flags["extend-called-on-a-returned-value"] = true
+			}
 		case "probe":
 			x := []byte(st.X)
 			SetLimit(st.Lim)
@@ -197,8 +207,28 @@ func c14Gen(t *rapid.T) c14Case {
 		c.Pool = append(c.Pool, x)
 	}
 	var exts []vfExt
+	if rapid.IntRange(0, 7).Draw(t, "deepchain") == 0 {
+		// a chain of extensions, each registered on the previous one, deeper than any built-in path
+		depth := rapid.IntRange(5, 13).Draw(t, "chaindepth")
+		parent := rapid.SampledFrom([]string{"", "application/zip", "text/plain", "application/vnd.oasis.opendocument.text-template", "application/json"}).Draw(t, "chainroot")
+		for i := 0; i < depth; i++ {
+			e := vfExt{Parent: parent, Mime: fmt.Sprintf("application/x-verif-%d", i), Ext: fmt.Sprintf(".vf%d", i),
+				Pred: vfPred{Kind: rapid.SampledFrom([]string{"always", "always", "minlen", "lenmod"}).Draw(t, "chainpred"), N: 1}}
+			exts = append(exts, e)
+			ec := e
+			c.Steps = append(c.Steps, c14Step{Op: "extend", Ext: &ec})
+			parent = e.Mime
+		}
+		x := c.Pool[0]
+		c.Steps = append(c.Steps, c14Step{Op: "probe", X: x, Lim: vfGenLimit(t, len(x))})
+		return c
+	}
 	ns := rapid.IntRange(1, 8).Draw(t, "nsteps")
 	for i := 0; i < ns; i++ {
+		if rapid.IntRange(0, 9).Draw(t, "onres") == 0 {
+			c.Steps = append(c.Steps, c14Step{Op: "extend-result"})
+			continue
+		}
 		if rapid.IntRange(0, 3).Draw(t, "op") > 0 {
 			e := vfGenExt(t, len(exts), exts)
 			exts = append(exts, e)
